@@ -7,6 +7,8 @@ import (
 	"path/filepath"
 	"strings"
 
+	"github.com/gkampitakis/go-snaps/snaps"
+
 	"verifharness/vkit"
 )
 
@@ -83,6 +85,80 @@ func checkC19(c *vkit.Ctx) {
 		h.ClassList = h.Classes.List()
 		c.Guard(histSample(&h), func() { runC19(c, i, &h) })
 	}
+	nr := c.N(300, 6000)
+	for j := 0; j < nr; j++ {
+		i := 70000000 + j
+		if !c.Mine(i) {
+			continue
+		}
+		c.Guard(i, func() { c19Reentrant(c, j) })
+	}
+}
+
+// section is a value whose formatting (GoString, which kr/pretty calls) takes a standalone
+// snapshot of its own through the same Config and handle: a report that snapshots its parts
+// while it is rendered. The outer call was entered first and owns the lower ordinal.
+type section struct {
+	text  string
+	inner func()
+}
+
+func (s section) GoString() string {
+	if s.inner != nil {
+		s.inner()
+	}
+	return s.text
+}
+
+// c19Reentrant: k plain standalone calls, one call whose value makes 1-2 nested standalone
+// calls while it is formatted, one more plain call; file n must hold the value of the n-th
+// call ENTERED, in every one of two executions.
+func c19Reentrant(c *vkit.Ctx, j int) {
+	r := c.Rand("reentrant", j)
+	root := vkit.MkScratch("c19r")
+	defer os.RemoveAll(root)
+	snaps.VerifResetProcessState()
+	snaps.VerifSetMode(false, "")
+	snaps.VerifSetNoColor(true)
+	cfg := snaps.WithConfig(snaps.Dir(root), snaps.Filename("x"))
+	before, nested := r.IntN(3), 1+r.IntN(2)
+	in := map[string]any{"part": "re-entrant standalone calls", "plain_calls_before": before, "nested_calls": nested}
+	for exec := 1; exec <= 2; exec++ {
+		t := vkit.NewT("TestR")
+		var want []string
+		for k := 0; k < before; k++ {
+			v := fmt.Sprintf("plain %d", k)
+			cfg.MatchStandaloneSnapshot(t, v)
+			want = append(want, v)
+		}
+		outer := fmt.Sprintf("section(%d nested)", nested)
+		want = append(want, outer)
+		for k := 0; k < nested; k++ {
+			want = append(want, fmt.Sprintf("inner %d", k))
+		}
+		cfg.MatchStandaloneSnapshot(t, section{text: outer, inner: func() {
+			for k := 0; k < nested; k++ {
+				cfg.MatchStandaloneSnapshot(t, fmt.Sprintf("inner %d", k))
+			}
+		}})
+		cfg.MatchStandaloneSnapshot(t, "last")
+		want = append(want, "last")
+		sg := t.Take()
+		t.Finish()
+		if len(sg.Errors) > 0 {
+			c.Violate("reentrant-standalone-call-failed", "", fmt.Sprintf("execution %d: %s", exec, vkit.Clip(vkit.StripANSI(sg.Errors[0]), 300)), in)
+			return
+		}
+		for n, w := range want {
+			b, err := os.ReadFile(filepath.Join(root, fmt.Sprintf("x_%d.snap", n+1)))
+			if err != nil || string(b) != w {
+				c.Violate("standalone-ordinal-not-in-call-order", "", fmt.Sprintf("execution %d: file x_%d.snap holds %s, the %d-th call entered had the value %s", exec, n+1, vkit.Q(string(b)), n+1, vkit.Q(w)), in)
+				return
+			}
+		}
+		c.Count("reentrant_standalone_executions", 1)
+	}
+	c.Case(vkit.Hash("reentrant", before, nested), true)
 }
 
 func pctClass(h *History, o Op) string {
